@@ -174,8 +174,35 @@ done:
   return 1;
 }
 
+/* xformn <ss> <w> <h> <seed> <srcprog> <n> (<op> <opts>)*n : several transforms in ONE tj3Transform call (they share the source
+ * coefficient arrays): every output must be what the same transform gives when it is requested alone. */
+static int op_xformn(toks_t *t)
+{
+  int ss = (int)tl(t, 1), w = (int)tl(t, 2), h = (int)tl(t, 3), srcprog = (int)tl(t, 5), n = (int)tl(t, 6), i, err = 0, bad = 0;
+  unsigned long long seed = (unsigned long long)tll(t, 4);
+  unsigned char *src = NULL, *dst[4] = { 0, 0, 0, 0 }, *one = NULL; unsigned long srcsize = 0; size_t dsz[4] = { 0, 0, 0, 0 }, osz = 0;
+  char a[1200], b[1200]; tjtransform xf[4]; tjhandle hx = tj3Init(TJINIT_TRANSFORM), h1 = tj3Init(TJINIT_TRANSFORM);
+  if (n > 4) n = 4;
+  if (!c06_build(ss, w, h, seed, srcprog, &src, &srcsize, &err)) { printf("R skip build %d\n", err); goto done; }
+  memset(xf, 0, sizeof(xf));
+  for (i = 0; i < n; i++) { xf[i].op = (int)tl(t, 7 + 2 * i); xf[i].options = (int)tl(t, 8 + 2 * i) | TJXOPT_COPYNONE; }
+  if (tj3Transform(hx, src, srcsize, n, dst, dsz, xf) < 0) { printf("R err\n"); printf("O ok\n"); goto done; }
+  printf("R multi %d\n", n);
+  for (i = 0; i < n && !bad; i++) {
+    tj3Free(one); one = NULL; osz = 0;
+    if (tj3Transform(h1, src, srcsize, 1, &one, &osz, &xf[i]) < 0) { bad = 1; printf("O fail xformn: transform %d (op %d) fails alone but not in a call of %d: %s\n", i, xf[i].op, n, tj3GetErrorStr(h1)); break; }
+    c06_dissect(dst[i], (unsigned long)dsz[i], a, sizeof(a)); c06_dissect(one, (unsigned long)osz, b, sizeof(b));
+    if (strcmp(a, b)) { bad = 1; printf("O fail xformn: output %d (op %d) of a call with %d transforms differs from the same transform requested alone: %s  vs  %s\n", i, xf[i].op, n, a, b); }
+  }
+  if (!bad) printf("O ok\n");
+done:
+  free(src); for (i = 0; i < 4; i++) tj3Free(dst[i]); tj3Free(one); tj3Destroy(hx); tj3Destroy(h1);
+  return 1;
+}
+
 static int dispatch_c06(toks_t *t)
 {
+  if (!strcmp(t->tok[0], "xformn") && t->n >= 9) return op_xformn(t);
   const char *op = t->tok[0];
   if (!strcmp(op, "xform")) return op_xform(t);
   return 0;
